@@ -21,7 +21,7 @@ pub const C23: Check = Check {
     level: "fault_enumeration",
     rule: "generated repositories (fake rsync) in two versions v1 -> v2 (new manifests and objects, incomplete / invalid points, \
            unreachable modules, so that updates, rejections and never-fetched markers are all written). `routinator vrps` (real \
-           main) primes the cache at v1; a dry run at v2 on a copy of that cache lists the K numbered kill points (every create, \
+           main) primes the cache at v1 (one case in three starts from an empty cache instead); a dry run at v2 on a copy of that cache lists the K numbered kill points (every create, \
            write, truncate, persist/rename, remove step of the store, the status file and utils::fatal) and yields the reference \
            output; then the cache is restored and the v2 run kills itself (SIGKILL) at point n (quick: up to 12 per case incl. the \
            first and last occurrence of every kind of step; thorough: every n). Afterwards, on the crashed cache: (a) `vrps \
@@ -85,9 +85,11 @@ fn item_block(item: &str) -> Option<usize> {
     asn_block(digits.parse().ok()?)
 }
 
+/// Per-CA view. Only route origins are attributed: the generator gives every ROA an origin AS from its issuing CA's
+/// own block, whereas ASPAs and router certificates may name ASes of a descendant's block.
 fn by_ca(items: &BTreeSet<String>) -> BTreeMap<usize, BTreeSet<String>> {
     let mut m: BTreeMap<usize, BTreeSet<String>> = BTreeMap::new();
-    for i in items { if let Some(b) = item_block(i) { m.entry(b).or_default().insert(i.clone()); } }
+    for i in items.iter().filter(|i| i.starts_with("roa ")) { if let Some(b) = item_block(i) { m.entry(b).or_default().insert(i.clone()); } }
     m
 }
 
@@ -111,8 +113,13 @@ fn run_c23(ctx: &mut Ctx, rep: &mut Report) {
         let params = GenParams { tals: 1 + rng.usize(2), max_cas: 3 + rng.usize(4), max_depth: 1 + rng.usize(2), max_objects: 1 + rng.usize(3), repos: 1 + rng.usize(2), ..GenParams::default() };
         let base = generate(&mut rng, chrono::Utc::now().timestamp(), &params);
         let em = *rng.pick(&[Emphasis::Mixed, Emphasis::Incomplete, Emphasis::FetchFaults, Emphasis::Mixed]);
-        let v1 = evolve(&base, 0, &mut rng, em);
-        let v2 = evolve(&v1, 1, &mut rng, em);
+        // v1 already carries faults (points that never validate leave "never fetched" markers that are rewritten later);
+        // v2 additionally has a CA that did not exist before (its stored point is created during the interrupted run)
+        let v0 = evolve(&base, 0, &mut rng, em);
+        let v1 = evolve(&v0, 1, &mut rng, em);
+        let mut v2 = evolve(&v1, 2, &mut rng, em);
+        if rng.chance(2, 3) { let parent = rng.usize(v2.cas.len()); if v2.cas[parent].alias_of.is_none() { let repo = v2.cas[parent].repo; add_child(&mut v2, &mut rng, parent, repo, 2); } }
+        let fresh = rng.chance(1, 3);
         let env = {
             let mut env = Env::new(&ctx.scratch.join("c23"));
             env.config.validation_threads = 1;          // deterministic order of the store's steps
@@ -126,11 +133,13 @@ fn run_c23(ctx: &mut Ctx, rep: &mut Report) {
         let out_file = env.dir.join("out.json");
         let out_s = out_file.display().to_string();
         let vrps_args: Vec<&str> = vec!["vrps", "-f", "json", "-o", &out_s];
-        // --- prime at v1
-        env.serve(&b.publish(&v1));
-        let o = routinator(&env.dir, &conf, &vrps_args, None, false);
-        if o.code != Some(0) { rep.inconclusive(format!("priming run exited {:?}: {}", o.code, o.stderr)); continue }
-        let r1 = match read_output(&out_file) { Ok(r) => r, Err(e) => { rep.inconclusive(format!("priming output: {e}")); continue } };
+        // --- prime at v1 (unless the interrupted run is the very first one on an empty cache)
+        let r1 = if fresh { BTreeSet::new() } else {
+            env.serve(&b.publish(&v1));
+            let o = routinator(&env.dir, &conf, &vrps_args, None, false);
+            if o.code != Some(0) { rep.inconclusive(format!("priming run exited {:?}: {}", o.code, o.stderr)); continue }
+            match read_output(&out_file) { Ok(r) => r, Err(e) => { rep.inconclusive(format!("priming output: {e}")); continue } }
+        };
         copy_dir(&cache, &saved);
         // --- dry run at v2: reference output and kill points
         env.serve(&b.publish(&v2));
@@ -192,6 +201,9 @@ fn run_c23(ctx: &mut Ctx, rep: &mut Report) {
                             // a CA may also be absent when an ancestor's point is in its other version
                             if g != old && g != new && !g.is_empty() { mixed.push(format!("CA {ca}: {} items, v1 has {}, v2 has {}", g.len(), old.len(), new.len())); }
                         }
+                        // ASPAs and router keys: each must come from the old or the new data set
+                        let foreign: Vec<&String> = items.iter().filter(|i| !i.starts_with("roa ") && !r1.contains(*i) && !r2.contains(*i)).take(3).collect();
+                        if !foreign.is_empty() { mixed.push(format!("items in neither version: {:?}", foreign)); }
                         a_class = if items == r2 { "new".into() } else if items == r1 { "old".into() } else { "per-ca-mix".into() };
                         if !mixed.is_empty() {
                             rep.violation(format!("C23/stored-point-neither-old-nor-new/{point}"), format!(
@@ -234,7 +246,7 @@ fn run_c23(ctx: &mut Ctx, rep: &mut Report) {
                     if items != r2 { rep.violation(format!("C23/store-differs-after-recovery/{point}"), format!("killed at {n}/{k} ({point}); after a full run the store yields a different data set than the run"), replay.clone()); }
                 }
             }
-            rep.class(format!("{point}|a:{a_class}|cas{}|v1={}v2={}", v2.cas.len().min(6), r1.len().min(9) / 3, r2.len().min(9) / 3));
+            rep.class(format!("{point}|a:{a_class}|fresh{}|cas{}|v1={}v2={}", fresh as u8, v2.cas.len().min(6), r1.len().min(9) / 3, r2.len().min(9) / 3));
             if rep.samples.len() < 2 { rep.sample(json!({"kill_point": point, "n": n, "of": k, "update_after_outcome": a_class, "reference_items": r2.len()})); }
         }
     }
